@@ -58,6 +58,17 @@ def gen_exact(draw, tier="quick"):
     )
     if case["fit"] and fdim > 1 and all(a == 1.0 for a in spec["anis"]):
         spec["anis"] = [draw(st.sampled_from([0.4, 2.5])) for _ in spec["anis"]]
+    plain = cfg.get("norm", "None") == "None" and cfg.get("trend", "none") == "none" and cfg.get("mean", "none") in ("none", "const") and not case["fit"] \
+        and cfg.get("cond_err", "nugget") in ("nugget", None)
+    if plain and draw(st.integers(0, 3)) == 0:
+        # unit of the variable: variance (and nugget) of order 10^e, data and constant mean of order 10^(e/2)
+        ue = draw(st.sampled_from([-12, -20, 8]))
+        spec["var"] = float(spec["var"] * 10.0**ue)
+        spec["nugget"] = float(spec["nugget"] * 10.0**ue)
+        case["cond_val"] = [float(v * 10.0 ** (ue / 2)) for v in case["cond_val"]]
+        if "mean_val" in cfg:
+            cfg["mean_val"] = float(cfg["mean_val"] * 10.0 ** (ue / 2))
+        case["unit"] = float(10.0 ** (ue / 2))
     if cfg["variant"] == "simple" and cfg.get("norm", "None") == "None" and draw(st.booleans()):
         case["remean"] = {"v": draw(st.floats(-2.0, 3.0)), "refresh": draw(st.booleans())}
     elif draw(st.booleans()):
@@ -107,7 +118,8 @@ def check_exact(case, rec):
     amp = 1.0 if cfg.get("norm", "None") == "None" else 4.0 * (1.0 + float(np.max(np.abs(vals))))
     # the solve loses about eps * cond relative to the size of the data vector (not of the single value)
     acc = max(1e-7, 50.0 * np.finfo(float).eps * cnd)
-    tolf = acc * (1.0 + float(np.max(np.abs(vals)))) * amp * np.ones_like(vals)
+    unit = float(case.get("unit", 1.0))
+    tolf = acc * (unit + float(np.max(np.abs(vals)))) * amp * np.ones_like(vals)
     errf = np.abs(f - vals)
     rec.discrepancy("interpolation", float(np.max(errf / tolf)), 1.0)
     require(
@@ -136,7 +148,7 @@ def check_exact(case, rec):
         rec.label("remean_" + ("refresh" if case["remean"]["refresh"] else "no_refresh"))
         for nm, ff in (("before", f1), ("after", f2)):
             e2 = np.abs(np.asarray(ff) - vals)
-            require(bool(np.all(e2 <= tolf * (1.0 + abs(float(case["remean"]["v"]))))),
+            require(bool(np.all(e2 <= tolf * (1.0 + abs(float(case["remean"]["v"])) / unit))),
                     f"estimate-only call {nm} assigning mean = {case['remean']['v']!r}: kriging does not return the conditioning values (max deviation {float(np.max(e2)):.3g})",
                     dict(tags, kind="not_exact_after_new_mean"))
     if case.get("recondition") and cfg["geo"] == "euclid" and not cfg.get("n_ext", 0) and not case.get("fit"):
